@@ -25,7 +25,7 @@ for p in props:
 m = {
     "version": 1,
     "setup_cmd": "./setup.sh",
-    "hooks": {"guard": "verif", "enable": "go build -tags verif (harness); add-only file pub/verif_hooks.go", "baseline_off_cmd": "cd /repo && go test -vet=off -count=1 ./...", "source_commits": json.load(open(os.path.join(ROOT, "tools", "hook_commits.json"))), "add_only": True},
+    "hooks": {"guard": "verif", "enable": "no hooks were needed: the harness (built with -tags verif) links the unchanged packages of /repo through a go.mod replace; the tag is reserved", "baseline_off_cmd": "cd /repo && go test -vet=off -count=1 ./...", "source_commits": json.load(open(os.path.join(ROOT, "tools", "hook_commits.json"))), "add_only": True},
     "engines": [{"name": "coq-model+correspondence", "path": "/verif/check", "serves_properties": [c["property_id"] for c in checks],
                  "kind_free_text": "Coq 8.16 theorems over an executable Gallina model; model regenerated from /repo by a go/ast translator (generated code, literal tables) or tied to /repo by a Go correspondence harness whose observations are judged inside Coq (vm_compute)"}],
     "checks": checks,
